@@ -2,11 +2,13 @@
 # tools/try_seed_wt.sh <patch.diff> <ID> [tier] : like try_seed.sh but applies the patch in a private scratch
 # worktree (so that a sweep running against /repo is not disturbed) and points the check at it.
 patch=$1; id=$2; tier=${3:-quick}
+# base commit the patch was written against: <out dir>/BASE, else /tmp/seedwork/BASE, else HEAD
+BASE=$(cat "$(dirname "$patch")/../BASE" 2>/dev/null || cat /tmp/seedwork/BASE 2>/dev/null || echo HEAD)
 wt=/tmp/seedwork/trywt_$$
-git -C /repo worktree add --detach -f $wt $(cat /tmp/seedwork/BASE 2>/dev/null || echo HEAD) >/dev/null 2>&1 || exit 2
+git -C /repo worktree add --detach -f $wt $BASE >/dev/null 2>&1 || exit 2
 git -C $wt apply "$patch" || { echo "PATCH-DOES-NOT-APPLY"; git -C /repo worktree remove --force $wt; exit 2; }
 # fixes committed to /repo after the agents' base commit are carried over (skipped with a note if they do not apply)
-if [ -f /tmp/seedwork/BASE ]; then git -C /repo diff $(cat /tmp/seedwork/BASE) HEAD -- src | git -C $wt apply 2>/dev/null || echo "NOTE: later fixes do not apply on top of this patch; running on the base commit"; fi
+if [ "$BASE" != HEAD ] && ! git -C /repo diff --quiet $BASE HEAD -- src; then git -C /repo diff $BASE HEAD -- src | git -C $wt apply 2>/dev/null || echo "NOTE: later fixes do not apply on top of this patch; running on the base commit"; fi
 snap=/tmp/seedwork/vsnap_$$; rm -rf $snap; mkdir -p $snap; git -C /verif archive HEAD check mc known_findings.json properties.jsonl | tar -x -C $snap; mkdir -p $snap/out/logs; cd $snap
 VERIF_COBRA_SRC=$wt/src VERIF_ALLOW_SRC=1 VERIF_NO_RECHECK=${VERIF_NO_RECHECK:-1} timeout 3000 ./check $id $tier > /tmp/try_seed_${id}_$$.log 2>&1; rc=$?
 git -C /repo worktree remove --force $wt; cd /; rm -rf $snap
